@@ -7,6 +7,7 @@ import (
 	"encoding/json"
 	"fmt"
 	"io"
+	"math"
 	"os"
 	"runtime/debug"
 	"strings"
@@ -114,6 +115,9 @@ func runOne(k cg.Kind, data []byte) (res result) {
 			var v s2.Polyline
 			if err = v.Decode(rd); err == nil {
 				res.Term = cg.PointsT(v)
+				if nonFinite(v) {
+					res.Sub = "nonFinite."
+				}
 				use = func() {
 					useRegion(&v)
 					useShape(&v)
@@ -124,6 +128,9 @@ func runOne(k cg.Kind, data []byte) (res result) {
 			v := new(s2.Loop)
 			if err = v.Decode(rd); err == nil {
 				res.Term = cg.LoopT(v)
+				if nonFinite(v.Vertices()) {
+					res.Sub = "nonFinite."
+				}
 				use = func() {
 					useRegion(v)
 					useShape(v)
@@ -150,6 +157,11 @@ func runOne(k cg.Kind, data []byte) (res result) {
 				}
 				if v.IsFull() {
 					res.Tag = "(full)"
+				}
+				for _, l := range loops {
+					if nonFinite(l.Vertices()) {
+						res.Sub = "nonFinite."
+					}
 				}
 				use = func() {
 					useRegion(v)
@@ -190,6 +202,18 @@ func runOne(k cg.Kind, data []byte) (res result) {
 		use()
 	}()
 	return res
+}
+
+// nonFinite reports a NaN or infinite coordinate among the vertices.
+func nonFinite(vs []s2.Point) bool {
+	for _, v := range vs {
+		for _, c := range []float64{v.X, v.Y, v.Z} {
+			if math.IsNaN(c) || math.IsInf(c, 0) {
+				return true
+			}
+		}
+	}
+	return false
 }
 
 func reencode(f func(w *bytes.Buffer) error) {
